@@ -72,8 +72,10 @@ class CachedTimeline(Timeline[IvlOut]):
         # Cover tracking - which ranges we've fetched
         self._cover: MemoryTimeline = MemoryTimeline()
 
-        # Expiry heap: (expires_at, cover_interval)
-        self._expiry_heap: list[tuple[float, CoverInterval]] = []
+        # Expiry heap: (expires_at, sequence, cover_interval); the sequence number
+        # breaks ties between equal expiry times (CoverInterval is not orderable)
+        self._expiry_heap: list[tuple[float, int, CoverInterval]] = []
+        self._expiry_seq = 0
 
         # Serialize evict/fill/stitch so concurrent fetches don't corrupt state
         self._lock = threading.Lock()
@@ -153,7 +155,10 @@ class CachedTimeline(Timeline[IvlOut]):
         # Record coverage
         cover = CoverInterval(start=gap_start, end=gap_end, created=monotonic())
         self._cover.add(cover)
-        heapq.heappush(self._expiry_heap, (cover.created + self.ttl, cover))
+        self._expiry_seq += 1
+        heapq.heappush(
+            self._expiry_heap, (cover.created + self.ttl, self._expiry_seq, cover)
+        )
 
         # Stitch at boundaries
         self._stitch_at(gap_start)
@@ -212,7 +217,7 @@ class CachedTimeline(Timeline[IvlOut]):
         """Remove expired cover segments and their cached data."""
         now = monotonic()
         while self._expiry_heap and self._expiry_heap[0][0] <= now:
-            _, cover = heapq.heappop(self._expiry_heap)
+            _, _, cover = heapq.heappop(self._expiry_heap)
 
             # Cover might have been removed already (shouldn't happen with TTL-only)
             try:
